@@ -78,6 +78,20 @@ Qed.
 Lemma tget_del_other t fd fd' : fd' <> fd -> tget (tdel t fd) fd' = tget t fd'.
 Proof. intro H. unfold tget. rewrite tfind_del_other by exact H. reflexivity. Qed.
 
+(* ---- the premises of the refinement, as named predicates ----------------------------- *)
+
+(* what the kernel guarantees of every symlink body: no NUL, shorter than the library's buffer *)
+Definition links_ok (s : fs) : Prop :=
+  forall o body, FSModel.link_body s o = Some body ->
+    has_nul body = false /\ N.leb READLINK_BUF (N.of_nat (length body)) = false.
+
+(* a check routine that succeeds -- leaving the descriptor table as it was -- whenever
+   [cur] is open on the object whose path below the root is [exp] *)
+Definition chk_static_ok (s : fs) (chk : Z -> Z -> list bytes -> prog (result unit ekind)) : Prop :=
+  forall t cur root exp o,
+    tget t root = Some ROOT -> tget t cur = Some o -> FSModel.descend s ROOT exp = Some o ->
+    run s t (chk cur root exp) = Done t (Ok tt).
+
 (* ---- running programs ---------------------------------------------------------------- *)
 
 Section SP.
@@ -259,24 +273,23 @@ Qed.
 
 (* ---- results ------------------------------------------------------------------------- *)
 
-Definition err_of (w : wres) : option ekind :=
-  match r_out w with
-  | Err e => Some e
-  | Ok (Partial _ _ e) => Some e
-  | Ok (Complete _) => None
-  end.
+(* an error outcome: either an error proper, or a partial result that carries the
+   error and whose handle is the only reference (Rc::try_unwrap will succeed) *)
+Definition fails (w : wres) (e : ekind) : Prop :=
+  r_out w = Err e \/
+  exists fd rem, r_out w = Ok (Partial fd rem e) /\ rc_get fd (r_refs w) = 1%nat.
 
 (* the outcome of a run against the answer of the pure walk *)
 Definition Res (out : outcome wres) (e : FSModel.wres) : Prop :=
   exists t' w, out = Done t' w /\
     match e with
     | FSModel.WOk o => exists fd, r_out w = Ok (Complete fd) /\ tget t' fd = Some o /\ rc_get fd (r_refs w) = 1%nat
-    | FSModel.WErr n => err_of w = Some (OsError n)
-    | FSModel.WBudget => err_of w = Some (OsError ELOOP)
+    | FSModel.WErr n => fails w (OsError n)
+    | FSModel.WBudget => fails w (OsError ELOOP)
     end.
 
 Definition FailsWith (out : outcome wres) (e : ekind) : Prop :=
-  exists t' w, out = Done t' w /\ err_of w = Some e.
+  exists t' w, out = Done t' w /\ fails w e.
 
 Lemma run_opt_close t (next : option Z) :
   exists t', run t (match next with Some n => close n | None => Ret tt end) = Done t' tt.
@@ -287,14 +300,23 @@ Proof.
   unfold bail. rewrite run_bind. destruct (run_opt_close t next) as [t1 ->].
   rewrite run_bind. destruct (run_rc_drop_total t1 (w_cur st) (w_refs st)) as (t2 & r2 & ->).
   rewrite run_bind. destruct (run_rc_drop_total t2 (w_root st) r2) as (t3 & r3 & ->).
-  eexists; eexists; split; reflexivity.
+  eexists; eexists; split; [reflexivity|left; reflexivity].
 Qed.
 
-Lemma run_ret_partial t st next rem e : FailsWith (run t (ret_partial st next rem e)) e.
+Lemma run_ret_partial t root cur exp refs next rem e :
+  ((cur = root /\ rc_get root refs = 2%nat) \/
+   (cur <> root /\ rc_get cur refs = 1%nat /\ rc_get root refs = 1%nat)) ->
+  FailsWith (run t (ret_partial (mk root cur exp refs) next rem e)) e.
 Proof.
-  unfold ret_partial. rewrite run_bind. destruct (run_opt_close t next) as [t1 ->].
-  rewrite run_bind. destruct (run_rc_drop_total t1 (w_root st) (w_refs st)) as (t2 & r2 & ->).
-  eexists; eexists; split; reflexivity.
+  intro Hrc. unfold ret_partial, mk. cbn [w_root w_cur w_refs w_stack].
+  rewrite run_bind. destruct (run_opt_close t next) as [t1 ->].
+  destruct Hrc as [[-> H2]|(Hne & H1c & H1r)].
+  - rewrite run_bind, (run_rc_drop_more t1 root refs 0 H2).
+    eexists; eexists; split; [reflexivity|]. right. exists root, rem. cbn [finish r_out r_refs].
+    split; [reflexivity|apply rc_get_set_same].
+  - rewrite run_bind, (run_rc_drop_last t1 root refs H1r).
+    eexists; eexists; split; [reflexivity|]. right. exists cur, rem. cbn [finish r_out r_refs].
+    split; [reflexivity|]. rewrite rc_get_set_other by exact Hne. exact H1c.
 Qed.
 
 Lemma fails_res_err out n : FailsWith out (OsError n) -> Res out (FSModel.WErr n).
@@ -306,9 +328,7 @@ Proof. intros (t' & w & -> & H). exists t', w. split; [reflexivity|exact H]. Qed
 (* ---- the check routine: any routine that succeeds when the walk is where it believes to be *)
 
 Variable chk : Z -> Z -> list bytes -> prog (result unit ekind).
-Hypothesis chk_ok : forall t cur root exp o,
-  tget t root = Some ROOT -> tget t cur = Some o -> FSModel.descend s ROOT exp = Some o ->
-  run t (chk cur root exp) = Done t (Ok tt).
+Hypothesis chk_ok : chk_static_ok s chk.
 
 Lemma run_final_check t root cur exp refs o :
   InvFd t root cur refs o -> FSModel.descend s ROOT exp = Some o ->
@@ -326,4 +346,321 @@ Proof.
     rewrite rc_get_set_other by exact Hne. exact H1c.
 Qed.
 
+(* ---- paths of objects ---------------------------------------------------------------- *)
+
+Variable df : nat -> nat.
+Hypothesis Hwf : FSProofs.wf s df.
+Hypothesis Hlinks : links_ok s.
+
+Definition path_of (o : nat) (exp : list bytes) : Prop := FSModel.descend s ROOT exp = Some o.
+Definition good (c : bytes) : Prop := has_nul c = false /\ has_slash c = false.
+
+Lemma descend_app c a b0 :
+  FSModel.descend s c (a ++ b0) = match FSModel.descend s c a with Some d => FSModel.descend s d b0 | None => None end.
+Proof.
+  revert c. induction a as [|x a IH]; intro c; cbn [app FSModel.descend]; [reflexivity|].
+  destruct (FSModel.lookup s c x); [apply IH|reflexivity].
+Qed.
+
+Lemma path_snoc o exp n c : path_of o exp -> FSModel.lookup s o n = Some c -> path_of c (exp ++ [n]).
+Proof. unfold path_of. intros H L. rewrite descend_app, H. cbn [FSModel.descend]. rewrite L. reflexivity. Qed.
+
+Lemma path_root : path_of ROOT [].
+Proof. reflexivity. Qed.
+
+(* the parent of a directory that has a non-empty path *)
+Lemma path_parent o exp : path_of o exp -> exp <> [] -> FSModel.is_dir s o = true ->
+  path_of (FSModel.parent_of s o) (removelast exp) /\ FSModel.is_dir s (FSModel.parent_of s o) = true.
+Proof.
+  intros H Hne Hd. destruct (exists_last Hne) as (e & n & ->). rewrite removelast_last.
+  unfold path_of in H. rewrite descend_app in H.
+  destruct (FSModel.descend s ROOT e) as [d|] eqn:Ed; [|discriminate].
+  cbn [FSModel.descend] in H. destruct (FSModel.lookup s d n) as [c|] eqn:El; [|discriminate].
+  inversion H; subst c.
+  destruct (FSProofs.wf_child_dir s df Hwf d n o El Hd) as [Hp _]. rewrite Hp.
+  split; [exact Ed|exact (FSProofs.wf_ents_dir s df Hwf d n o El)].
+Qed.
+
+Lemma symlink_mode_of k :
+  is_symlink_mode (mode_of k) = match k with FSModel.KLnk _ => true | _ => false end.
+Proof. destruct k; reflexivity. Qed.
+
+Lemma link_body_kind o : FSModel.link_body s o = match FSModel.kind_of s o with FSModel.KLnk b0 => Some b0 | _ => None end.
+Proof. reflexivity. Qed.
+
+Lemma dir_no_body o : FSModel.is_dir s o = true -> FSModel.link_body s o = None.
+Proof. unfold FSModel.is_dir, FSModel.link_body. destruct (FSModel.kind_of s o); try discriminate; reflexivity. Qed.
+
+Lemma good_dot : good [DOT].
+Proof. split; reflexivity. Qed.
+
+Lemma raw_components_no_nul p : has_nul p = false -> Forall (fun c => has_nul c = false) (raw_components p).
+Proof.
+  induction p as [|c r IH]; intro H; cbn [raw_components]; [repeat constructor|].
+  unfold has_nul in H. rewrite has_byte_cons in H. apply orb_false_iff in H. destruct H as [Hc Hr].
+  specialize (IH Hr). destruct (N.eqb c SLASH); [constructor; [reflexivity|exact IH]|].
+  destruct (raw_components r) as [|h t]; [repeat constructor; unfold has_nul; rewrite has_byte_cons, Hc; reflexivity|].
+  inversion IH; subst. constructor; [|assumption].
+  unfold has_nul. rewrite has_byte_cons, Hc. assumption.
+Qed.
+
+Lemma good_components p : has_nul p = false -> Forall good (raw_components p).
+Proof.
+  intro H. pose proof (raw_components_no_nul p H) as Hn. pose proof (raw_components_no_slash p) as Hs.
+  rewrite Forall_forall in *. intros c Hc. split; [apply Hn, Hc|apply Hs, Hc].
+Qed.
+
+(* ---- one component ------------------------------------------------------------------- *)
+
+Variable ps : N.
+Variables nosym nf : bool.
+Notation fin := (final_check_gen chk).
+
+(* the recursive call used after a link body was spliced in, against the pure walk's *)
+Definition follow_rel (follow : option (wst -> list bytes -> prog wres))
+           (fe : option (nat -> nat -> list bytes -> FSModel.wres)) : Prop :=
+  match follow, fe with
+  | None, None => True
+  | Some g, Some ge =>
+      forall t root cur exp refs o comps, InvFd t root cur refs o -> path_of o exp -> Forall good comps ->
+        Res (run t (g (mk root cur exp refs) comps)) (ge o (length exp) comps)
+  | _, _ => False
+  end.
+
+Lemma walk_open_static follow fe inner einner remaining rest t root cur refs o part expn :
+  follow_rel follow fe ->
+  (forall t root cur exp refs o, InvFd t root cur refs o -> path_of o exp ->
+     Res (run t (inner (mk root cur exp refs) rest)) (einner o (length exp) rest)) ->
+  InvFd t root cur refs o -> good part -> Forall good rest ->
+  (forall nxt, sem_open s o part = inl nxt -> path_of nxt expn) ->
+  (forall nxt body, sem_open s o part = inl nxt -> FSModel.link_body s nxt = Some body -> path_of o (pop_exp expn)) ->
+  Res (run t (walk_open fz ps chk fin nosym nf follow inner remaining rest (mk root cur expn refs) part))
+      (match sem_open s o part with
+       | inr e => FSModel.WErr e
+       | inl d =>
+           match FSModel.link_body s d with
+           | None => einner d (length expn) rest
+           | Some body =>
+               if is_nil rest && nf then FSModel.WOk d
+               else if nosym then FSModel.WErr FSModel.E_LOOP
+               else match fe with
+                    | None => FSModel.WBudget
+                    | Some ge => if is_abs body then ge ROOT 0%nat (raw_components body ++ rest)
+                                 else ge o (length (pop_exp expn)) (raw_components body ++ rest)
+                    end
+           end
+       end).
+Proof.
+  intros Hfollow Hinner Hinv [Hnul Hsl] Hrest Hexp Hpop.
+  pose proof Hinv as [Hr Hc Hrc]. unfold mk in *.
+  unfold walk_open. rewrite Hsl. cbn [w_cur w_root w_exp w_refs w_stack].
+  rewrite run_bind, (run_openat t cur o part Hc Hnul Hsl).
+  destruct (sem_open s o part) as [d|e] eqn:Eo.
+  2:{ apply fails_res_err, (run_ret_partial t root cur expn refs None remaining (OsError e) Hrc). }
+  set (nx := fresh t). set (t1 := (nx, d) :: t).
+  assert (Hn1 : tget t1 nx = Some d) by apply tget_new.
+  assert (Hr1 : tget t1 root = Some ROOT) by (apply tget_new_old; exact Hr).
+  assert (Hc1 : tget t1 cur = Some o) by (apply tget_new_old; exact Hc).
+  assert (Hnr : nx <> root) by (apply (fresh_neq t root ROOT Hr)).
+  assert (Hnc : nx <> cur) by (apply (fresh_neq t cur o Hc)).
+  assert (Hinv1 : InvFd t1 root cur refs o) by (split; assumption).
+  specialize (Hexp d eq_refl).
+  (* the check after a '..' step *)
+  rewrite run_bind.
+  assert (Hchk : run t1 (if is_dotdot part then chk nx root expn else Ret (Ok tt)) = Done t1 (Ok tt)).
+  { destruct (is_dotdot part); [apply (chk_ok t1 nx root expn d Hr1 Hn1 Hexp)|reflexivity]. }
+  rewrite Hchk. clear Hchk.
+  rewrite run_bind, (run_fstatat t1 nx d Hn1). cbn [st_mode].
+  rewrite symlink_mode_of. rewrite link_body_kind.
+  destruct (FSModel.kind_of s d) as [| |body| | |] eqn:Ek; cbn [negb].
+  all: try (
+    (* not a link: current = next; continue *)
+    unfold stack_pop_part; cbn [w_stack w_refs w_root w_cur w_exp bind];
+    destruct (run_set_cur_fresh t1 root cur expn refs o nx d expn Hinv1 Hn1 Hnr Hnc) as (t2 & refs2 & Hrun & Hinv2);
+    rewrite run_bind; unfold mk in Hrun; rewrite Hrun;
+    apply (Hinner t2 root nx expn refs2 d Hinv2 Hexp)).
+  (* a link *)
+  assert (Hb : FSModel.link_body s d = Some body) by (rewrite link_body_kind, Ek; reflexivity).
+  specialize (Hpop d body eq_refl Hb).
+  destruct (is_nil rest && nf).
+  { (* trailing link, not followed: it is the result *)
+    destruct (run_set_cur_fresh t1 root cur expn refs o nx d expn Hinv1 Hn1 Hnr Hnc) as (t2 & refs2 & Hrun & Hinv2).
+    rewrite run_bind. unfold mk in Hrun. rewrite Hrun.
+    apply (run_final_check t2 root nx expn refs2 d Hinv2 Hexp). }
+  destruct nosym.
+  { apply fails_res_err, (run_ret_partial t1 root cur expn refs (Some nx) remaining (OsError ELOOP) Hrc). }
+  rewrite run_bind.
+  assert (Hmf : run t1 (if EMU_PS_ONLY_TRAILING && negb (is_nil rest) then Ret (Ok tt) else may_follow_link fz ps cur nx)
+                = Done t1 (Ok tt)).
+  { destruct (EMU_PS_ONLY_TRAILING && negb (is_nil rest)); [reflexivity|apply (run_may_follow ps t1 cur nx o d Hc1 Hn1)]. }
+  rewrite Hmf. clear Hmf.
+  destruct follow as [g|], fe as [ge|]; try contradiction.
+  2:{ apply fails_res_budget, (run_ret_partial t1 root cur expn refs (Some nx) remaining (OsError ELOOP) Hrc). }
+  destruct (Hlinks d body Hb) as [Hbnul Hblen].
+  rewrite run_bind, (run_readlinkat t1 nx d body Hn1 Hb Hblen).
+  assert (Hgood : Forall good (raw_components body ++ rest)) by (apply Forall_app; split; [apply good_components, Hbnul|exact Hrest]).
+  rewrite run_bind.
+  destruct (is_abs body) eqn:Eabs.
+  - rewrite (run_is_magiclink t1 nx d Hn1).
+    destruct (run_set_cur_root t1 root cur (pop_exp expn) refs o [] Hinv1) as (t2 & refs2 & Hrun & Hinv2 & Hsame).
+    rewrite run_bind. unfold mk in Hrun. rewrite Hrun.
+    rewrite run_bind, run_close.
+    apply (Hfollow (tdel t2 nx) root root [] refs2 ROOT _); [|exact path_root|exact Hgood].
+    destruct Hinv2 as [Hr2 Hc2 Hrc2]. split; [rewrite tget_del_other by congruence; exact Hr2 ..|exact Hrc2].
+  - cbn [Static.run bind w_stack w_refs w_root w_cur w_exp]. rewrite run_bind, run_close.
+    apply (Hfollow (tdel t1 nx) root cur (pop_exp expn) refs o _); [|exact Hpop|exact Hgood].
+    split; [rewrite tget_del_other by congruence; assumption ..|exact Hrc].
+Qed.
+
+(* ---- the component loop -------------------------------------------------------------- *)
+
+Lemma is_dot_eq p : is_dot p = true -> p = [DOT].
+Proof. unfold is_dot. apply beq_true_iff. Qed.
+Lemma is_dotdot_eq p : is_dotdot p = true -> p = [DOT; DOT].
+Proof. unfold is_dotdot. apply beq_true_iff. Qed.
+
+Lemma sem_open_dot o : sem_open s o [DOT] = if FSModel.is_dir s o then inl o else inr ENOTDIR.
+Proof. unfold sem_open. destruct (FSModel.is_dir s o); reflexivity. Qed.
+Lemma sem_open_dotdot o : sem_open s o [DOT; DOT] = if FSModel.is_dir s o then inl (FSModel.parent_of s o) else inr ENOTDIR.
+Proof. unfold sem_open. destruct (FSModel.is_dir s o); reflexivity. Qed.
+Lemma sem_open_name o n : is_dot n = false -> is_dotdot n = false ->
+  sem_open s o n = if FSModel.is_dir s o
+                   then match FSModel.lookup s o n with Some c => inl c | None => inr (FSModel.name_err n) end
+                   else inr ENOTDIR.
+Proof. intros H1 H2. unfold sem_open. rewrite H1, H2. destruct (FSModel.is_dir s o); reflexivity. Qed.
+
+Lemma walk_body_static follow fe : follow_rel follow fe ->
+  forall comps t root cur exp refs o, InvFd t root cur refs o -> path_of o exp -> Forall good comps ->
+    Res (run t (walk_body fz ps chk fin nosym nf follow (mk root cur exp refs) comps))
+        (FSModel.ebody s nf nosym fe o (length exp) comps).
+Proof.
+  intros Hfollow comps. induction comps as [|part0 rest IH]; intros t root cur exp refs o Hinv Hpath Hgood.
+  { cbn [walk_body FSModel.ebody]. apply run_final_check; assumption. }
+  inversion Hgood as [|x l Hg0 Hgrest]; subst x l.
+  cbn [walk_body FSModel.ebody]. unfold mk. cbn [w_exp w_root w_cur w_refs w_stack].
+  fold (mk root cur exp refs).
+  assert (Hinner : forall t root cur exp refs o, InvFd t root cur refs o -> path_of o exp ->
+            Res (run t (walk_body fz ps chk fin nosym nf follow (mk root cur exp refs) rest))
+                (FSModel.ebody s nf nosym fe o (length exp) rest)).
+  { intros. apply IH; assumption. }
+  destruct (is_nil part0) eqn:Enil.
+  { (* "" : openat(cur, ".") *)
+    cbn [orb].
+    pose proof (walk_open_static follow fe _ _ (join_slash (part0 :: rest)) rest t root cur refs o [DOT] exp
+                  Hfollow Hinner Hinv good_dot Hgrest) as H.
+    rewrite sem_open_dot in H. destruct (FSModel.is_dir s o) eqn:Ed.
+    - rewrite (dir_no_body o Ed) in H. apply H; [intros nxt E; inversion E; subst; exact Hpath|].
+      intros nxt body E Hb. inversion E; subst. rewrite (dir_no_body _ Ed) in Hb. discriminate.
+    - apply H; intros; discriminate. }
+  destruct (is_dot part0) eqn:Edot.
+  { cbn [orb]. apply is_dot_eq in Edot. subst part0.
+    pose proof (walk_open_static follow fe _ _ (join_slash ([DOT] :: rest)) rest t root cur refs o [DOT] exp
+                  Hfollow Hinner Hinv good_dot Hgrest) as H.
+    rewrite sem_open_dot in H. destruct (FSModel.is_dir s o) eqn:Ed.
+    - rewrite (dir_no_body o Ed) in H. apply H; [intros nxt E; inversion E; subst; exact Hpath|].
+      intros nxt body E Hb. inversion E; subst. rewrite (dir_no_body _ Ed) in Hb. discriminate.
+    - apply H; intros; discriminate. }
+  cbn [orb].
+  destruct (is_dotdot part0) eqn:Edd.
+  { apply is_dotdot_eq in Edd. subst part0.
+    destruct exp as [|e0 exp'].
+    - (* at the root: current = root *)
+      cbn [length]. unfold stack_pop_part. cbn [w_stack w_refs w_root w_cur w_exp bind mk].
+      destruct (run_set_cur_root t root cur [] refs o [] Hinv) as (t2 & refs2 & Hrun & Hinv2 & _).
+      rewrite run_bind. unfold mk in Hrun. rewrite Hrun. apply (Hinner t2 root root [] refs2 ROOT Hinv2 path_root).
+    - set (exp := e0 :: exp') in *.
+      assert (Hne : exp <> []) by discriminate.
+      pose proof (walk_open_static follow fe _ _ (join_slash ([DOT; DOT] :: rest)) rest t root cur refs o [DOT; DOT] (pop_exp exp)
+                    Hfollow Hinner Hinv (conj eq_refl eq_refl) Hgrest) as H.
+      rewrite sem_open_dotdot in H.
+      assert (Hlen : length exp = S (length (pop_exp exp))).
+      { unfold pop_exp. destruct (exists_last Hne) as (e & n & ->). rewrite removelast_last, app_length. cbn. lia. }
+      rewrite Hlen. unfold mk in *. cbn [w_exp w_root w_cur w_refs w_stack].
+      destruct (FSModel.is_dir s o) eqn:Ed.
+      + destruct (path_parent o exp Hpath Hne Ed) as [Hpp Hpd].
+        rewrite (dir_no_body _ Hpd) in H. apply H; [intros nxt E; inversion E; subst; exact Hpp|].
+        intros nxt body E Hb. inversion E; subst. rewrite (dir_no_body _ Hpd) in Hb. discriminate.
+      + apply H; intros; discriminate. }
+  (* an ordinary name *)
+  pose proof (walk_open_static follow fe _ _ (join_slash (part0 :: rest)) rest t root cur refs o part0 (exp ++ [part0])
+                Hfollow Hinner Hinv Hg0 Hgrest) as H.
+  rewrite (sem_open_name o part0 Edot Edd) in H.
+  assert (Hpe : pop_exp (exp ++ [part0]) = exp) by (unfold pop_exp; apply removelast_last).
+  rewrite Hpe in H. rewrite app_length in H. cbn [length] in H. rewrite Nat.add_1_r in H.
+  unfold mk in *. cbn [w_exp w_root w_cur w_refs w_stack].
+  destruct (FSModel.is_dir s o) eqn:Ed; cbn [negb].
+  - destruct (FSModel.lookup s o part0) as [c|] eqn:El.
+    + apply H; [intros nxt E; inversion E; subst; eapply path_snoc; eassumption|].
+      intros; exact Hpath.
+    + apply H; intros; discriminate.
+  - apply H; intros; discriminate.
+Qed.
+
+(* ---- the whole walk ------------------------------------------------------------------ *)
+
+Lemma walk_gen_static bd : forall comps t root cur exp refs o,
+  InvFd t root cur refs o -> path_of o exp -> Forall good comps ->
+  Res (run t (walk_gen fz ps chk fin (S bd) nosym nf (mk root cur exp refs) comps))
+      (FSModel.ewalk_q s nf nosym bd o (length exp) comps).
+Proof.
+  induction bd as [|b IH]; intros comps t root cur exp refs o Hinv Hp Hg.
+  - cbn [walk_gen FSModel.ewalk_q]. apply (walk_body_static None None I); assumption.
+  - change (walk_gen fz ps chk fin (S (S b)) nosym nf)
+      with (walk_body fz ps chk fin nosym nf (Some (walk_gen fz ps chk fin (S b) nosym nf))).
+    cbn [FSModel.ewalk_q]. apply (walk_body_static (Some _) (Some _)); [|assumption ..].
+    intros t' r c e rf o' cs Hi Hp' Hg'. apply IH; assumption.
+Qed.
+
+Lemma max_links_S : N.to_nat MAX_SYMLINK_TRAVERSALS = S FSModel.EMU_LINKS.
+Proof. vm_compute. reflexivity. Qed.
+
+(* opath::resolve on the static kernel = FSModel.ewalk *)
+Theorem resolve_static t root path :
+  tget t root = Some ROOT -> has_nul path = false ->
+  match FSModel.ewalk s path nf nosym with
+  | FSModel.WOk o => exists t' fd, run t (resolve_gen fz ps chk root path nosym nf) = Done t' (Ok fd) /\ tget t' fd = Some o
+  | FSModel.WErr n => exists t', run t (resolve_gen fz ps chk root path nosym nf) = Done t' (Err (OsError n))
+  | FSModel.WBudget => exists t', run t (resolve_gen fz ps chk root path nosym nf) = Done t' (Err (OsError ELOOP))
+  end.
+Proof.
+  intros Hroot Hnul.
+  unfold resolve_gen, do_resolve_gen, bindR. rewrite !run_bind.
+  (* the dup of the root *)
+  assert (Hdup : run t (os (dup_cloexec root)) = Done ((fresh t, ROOT) :: t) (Ok (fresh t))).
+  { unfold os, map_err, dup_cloexec. cbn [bind Static.run]. unfold answer. cbn [sem]. rewrite Hroot.
+    cbn [as_fd]. pose proof (fresh_ge3 t). destruct (Z.leb_spec 0 (fresh t)); [reflexivity|lia]. }
+  rewrite Hdup. set (rd := fresh t). set (t1 := (rd, ROOT) :: t).
+  assert (Hinv : InvFd t1 rd rd [(rd, 2%nat)] ROOT).
+  { split; [apply tget_new ..|]. left. split; [reflexivity|]. cbn [rc_get]. rewrite Z.eqb_refl. reflexivity. }
+  unfold FSModel.ewalk.
+  destruct (EMPTY_PATH_IS_ENOENT && is_nil path).
+  { (* the empty path *)
+    rewrite run_bind.
+    destruct (run_ret_partial t1 rd rd [] [(rd, 2%nat)] None [] (OsError ENOENT)) as (t2 & w & Hrun & Hf).
+    { left. split; [reflexivity|]. cbn [rc_get]. rewrite Z.eqb_refl. reflexivity. }
+    unfold mk in Hrun. rewrite Hrun. cbn [Static.run].
+    destruct Hf as [Hf|(fd & rem & Hf & Hrc)]; rewrite Hf.
+    - eexists; reflexivity.
+    - unfold unwrap_rc. rewrite Hrc. cbn [bind Static.run]. unfold answer. cbn [sem]. eexists; reflexivity. }
+  rewrite run_bind, max_links_S.
+  pose proof (walk_gen_static FSModel.EMU_LINKS (raw_components path) t1 rd rd [] [(rd, 2%nat)] ROOT Hinv path_root
+                (good_components path Hnul)) as (t2 & w & Hrun & Hres).
+  unfold mk in Hrun. rewrite Hrun. cbn [Static.run length] in *.
+  destruct (FSModel.ewalk_q s nf nosym FSModel.EMU_LINKS ROOT 0 (raw_components path)) as [o|n|].
+  - destruct Hres as (fd & Hout & Hfd & Hrc). rewrite Hout. unfold unwrap_rc. rewrite Hrc.
+    cbn [bind Static.run]. exists t2, fd. split; [reflexivity|exact Hfd].
+  - destruct Hres as [Hf|(fd & rem & Hf & Hrc)]; rewrite Hf.
+    + eexists; reflexivity.
+    + unfold unwrap_rc. rewrite Hrc. cbn [bind Static.run]. unfold answer. cbn [sem]. eexists; reflexivity.
+  - destruct Hres as [Hf|(fd & rem & Hf & Hrc)]; rewrite Hf.
+    + eexists; reflexivity.
+    + unfold unwrap_rc. rewrite Hrc. cbn [bind Static.run]. unfold answer. cbn [sem]. eexists; reflexivity.
+Qed.
+
 End SP.
+
+(* the functions of OpathM are the instance for check_current *)
+Lemma resolve_is_gen fz o2 pfuel gh ps root path nosym nf :
+  opath_resolve_root fz o2 pfuel gh ps root path nosym nf =
+  resolve_gen fz ps (check_current fz o2 pfuel gh) root path nosym nf.
+Proof. reflexivity. Qed.
